@@ -552,12 +552,13 @@ class Reach:
         except ValueError:
             return self
         self.active = True
+        m.restart_events()
 
         def on_line(code, line):
             h = self.hit.get(code)
             if h is not None:
                 h.add(line)
-            return None
+            return m.DISABLE        # each location reports once: no overhead afterwards
 
         m.register_callback(self.TOOL, m.events.LINE, on_line)
         for co in self.codes:
